@@ -182,5 +182,7 @@ def run(ctx):
     rejected = validate_traces(ctx, 'Trace_Rebin', 'Trace_Rebin.cfg', trs, chunk=500)
     for idx, viol in rejected[:10]:
         ctx.violation('C06:trace:%s' % (viol[0][1] if viol else '?'), 'recorded rebin rejected: %r' % (viol,), {'trace': trs[idx], 'viol': viol})
+    from .c07 import stage
+    stage(ctx, 'C06', 48 if q else 6)       # end to end through convolve_model_dir (both formats, SEDs on their own grids)
     ctx.assumptions += ['frequencies on an integer lattice (unit c/12um so that wavelength files hit it), SED grid nodes even so that bin edges are lattice points',
                         'non-negative integer responses']
